@@ -26,7 +26,27 @@ func vTlsaRR(name string, n int) []miekgdns.RR {
 			Usage: 3, MatchingType: 1, Selector: uint8(i % 2), Certificate: fmt.Sprintf("%064x", 16+i+len(name)),
 		})
 	}
+	if n >= 2 {
+		// the same association data under another usage, the record this
+		// implementation cannot use first (a PKIX-EE and a DANE-EE pin of
+		// one key, as rollover tooling publishes them)
+		same := fmt.Sprintf("%064x", 16+len(name))
+		rrs = append([]miekgdns.RR{&miekgdns.TLSA{
+			Hdr:   miekgdns.RR_Header{Name: name, Class: miekgdns.ClassINET, Rrtype: miekgdns.TypeTLSA, Ttl: 9999},
+			Usage: 1, MatchingType: 1, Selector: 0, Certificate: same,
+		}}, rrs...)
+	}
 	return rrs
+}
+
+// vZoneTLSA is the zone's own RRset as the view presents it: every record of
+// the answer, in the order the zone holds them.
+func vZoneTLSA(ad bool, rrs []miekgdns.RR) string {
+	var recs []dns.TLSA
+	for _, rr := range rrs {
+		recs = append(recs, *rr.(*miekgdns.TLSA))
+	}
+	return cQTlsa(ad, recs, nil)
 }
 
 func cTlsaList(recs []dns.TLSA) string {
@@ -81,13 +101,16 @@ func TestVerif_C13Disc(t *testing.T) {
 							zones[mx] = mockdns.Zone{AD: adMx == 1, CNAME: canon}
 							zones[canon] = mockdns.Zone{AD: adCanon == 1, TXT: []string{"no address here"}}
 						}
+						zoneView := map[string]string{}
 						mk := func(kind int, name string) {
 							full := "_25._tcp." + name
 							switch kind {
 							case 1:
 								zones[full] = mockdns.Zone{AD: true, Misc: map[miekgdns.Type][]miekgdns.RR{miekgdns.Type(miekgdns.TypeTLSA): vTlsaRR(full, 2)}}
+								zoneView[name] = vZoneTLSA(true, vTlsaRR(full, 2))
 							case 2:
 								zones[full] = mockdns.Zone{AD: false, Misc: map[miekgdns.Type][]miekgdns.RR{miekgdns.Type(miekgdns.TypeTLSA): vTlsaRR(full, 1)}}
+								zoneView[name] = vZoneTLSA(false, vTlsaRR(full, 1))
 							case 3:
 								zones[full] = mockdns.Zone{Err: fmt.Errorf("broken")}
 							case 4:
@@ -153,8 +176,24 @@ func TestVerif_C13Disc(t *testing.T) {
 							res = "(LRecs " + cTlsaList(recs) + ")"
 						}
 						srv.Close()
+						// where the zone holds TLSA records the view is the zone's
+						// RRset itself, so that the resolver function's answer is
+						// part of what is compared
+						vc, vo := cQTlsa(a1, r1, e1), cQTlsa(a2, r2, e2)
+						if zv, ok := zoneView[canonName]; ok {
+							if zv != vc {
+								stats["resolver_differs_from_zone"]++
+							}
+							vc = zv
+						}
+						if zv, ok := zoneView[mx]; ok {
+							if zv != vo {
+								stats["resolver_differs_from_zone"]++
+							}
+							vo = zv
+						}
 						out.Case(fmt.Sprintf("{| c_view := {| v_addr := %s; v_cname := %s; v_tlsa_canon := %s; v_tlsa_orig := %s |}; c_res := %s |}",
-							vaddr, vcname, cQTlsa(a1, r1, e1), cQTlsa(a2, r2, e2), res))
+							vaddr, vcname, vc, vo, res))
 						stats[fmt.Sprintf("addr_%d", addr)]++
 						n++
 					}
